@@ -1560,6 +1560,19 @@ def normalize_module(tree: ast.Module, modname: str, log: list[str] | None = Non
         for q, f, c, b in fns:
             if id(f) not in new_ids:
                 inl.run(f)
+        # lambdas in class-level / module-level declarations (field loaders, registries): inline helper calls there too
+        def _decl_blocks(body):
+            for st_ in body:
+                if isinstance(st_, ast.ClassDef):
+                    yield from _decl_blocks(st_.body)
+                elif isinstance(st_, (ast.Assign, ast.AnnAssign)) and any(isinstance(x, ast.Lambda) for x in ast.walk(st_)):
+                    yield body, st_
+        for blk_, st_ in list(_decl_blocks(tree.body)):
+            shim = ast.FunctionDef(name="<declaration>", args=ast.arguments(posonlyargs=[], args=[], kwonlyargs=[], kw_defaults=[], defaults=[]),
+                                   body=[st_], decorator_list=[], lineno=st_.lineno, col_offset=0)
+            inl.run(shim)
+            if len(shim.body) == 1:
+                blk_[blk_.index(st_)] = shim.body[0]
         # a fully inlined helper is dropped (so that it is not analysed as an anchor-less stray)
         for q, f, c, b in new:
             still_called = False
